@@ -77,16 +77,48 @@ func sparseOne(seed uint64, fn *ir.Function) (c SparseCase) {
 		if _, ok := in.(ir.Value); !ok || sk[i].Phi {
 			continue
 		}
-		switch k := r.Intn(10); {
-		case k < 5:
+		switch k := r.Intn(12); {
+		case k < 4:
 			c.Instrs[i].Desc = SDesc{Kind: "gen", Gen: rb(15), Kill: rb(20)}
-		case k < 8 && len(sk[i].Ops) > 0:
+		case k < 7 && len(sk[i].Ops) > 0:
 			c.Instrs[i].Desc = SDesc{Kind: "copy"}
+		case k < 10 && len(sk[i].Ops) > 0:
+			// the usual idiom: nothing to say while every input is still bottom
+			c.Instrs[i].Desc = SDesc{Kind: "lazy", Gen: rb(15), Kill: rb(20)}
+		}
+	}
+	// loop-carried values that are bottom on loop entry and become non-bottom only through the back edge, read by
+	// transfer functions that say nothing while their inputs are bottom (one step: a user of the phi; two steps: a
+	// user of a copy of the phi)
+	for i := range instrs {
+		if !sk[i].Phi {
+			continue
+		}
+		for _, o := range sk[i].Ops {
+			if o > i && o < len(instrs) && !sk[o].Phi {
+				if _, ok := instrs[o].(ir.Value); ok && r.Chance(70) {
+					c.Instrs[o].Desc = SDesc{Kind: "gen", Gen: rb(15) | 1<<uint(r.Intn(8)), Kill: rb(20)}
+				}
+			}
+		}
+	}
+	for i, in := range instrs {
+		if _, ok := in.(ir.Value); !ok || sk[i].Phi {
+			continue
+		}
+		for _, o := range sk[i].Ops {
+			if o < len(instrs) && sk[o].Phi && c.Instrs[i].Desc.Kind != "gen" && r.Chance(60) {
+				if r.Chance(70) {
+					c.Instrs[i].Desc = SDesc{Kind: "lazy", Gen: rb(15), Kill: rb(20)}
+				} else {
+					c.Instrs[i].Desc = SDesc{Kind: "copy"}
+				}
+			}
 		}
 	}
 	ins := &sparse.Instance[bitsL, bits]{Mapping: map[ir.Value]sparse.Mapping[bits]{}}
 	for k, v := range exts {
-		if r.Chance(50) {
+		if r.Chance(30) {
 			b := rb(30)
 			if b != 0 {
 				ins.Set(v, bits(b))
@@ -114,6 +146,15 @@ func sparseOne(seed uint64, fn *ir.Function) (c SparseCase) {
 			return []sparse.Mapping[bits]{{Value: v, State: bits(d.Gen) | (u &^ bits(d.Kill))}}
 		case "copy":
 			return []sparse.Mapping[bits]{{Value: v, State: ins.Value(opVals[i][0])}}
+		case "lazy":
+			var u bits
+			for _, o := range opVals[i] {
+				u |= ins.Value(o)
+			}
+			if u == 0 {
+				return nil
+			}
+			return []sparse.Mapping[bits]{{Value: v, State: bits(d.Gen) | (u &^ bits(d.Kill))}}
 		}
 		return nil
 	}
